@@ -1,4 +1,67 @@
-/- driver operations of C04 (stub: no model yet) -/
+/- driver operations of C04 (trajectory alignment; the Umeyama certificate op is shared with C03) -/
+import EvoModel.Model.Align
+import EvoModel.Drv.C03
 namespace Evo.Drv.C04
-def handle (_op : String) (_args : List String) : Option String := none
+open Evo Evo.Align
+
+def parseMode : String → Option Mode
+  | "se3" => some .se3
+  | "sim3" => some .sim3
+  | "scale" => some .scaleOnly
+  | _ => none
+
+def readRts (l : List String) : Option (M3 Rat × V3 Rat × Rat × List String) := do
+  let (rr, rest) ← takeN 9 l
+  let R ← (parseRats? rr).bind M3.ofList
+  let (tt, rest) ← takeN 3 rest
+  let t ← (parseRats? tt).bind V3.ofList
+  match rest with
+  | s :: rest => do
+      let s ← parseRat? s
+      some (R, t, s, rest)
+  | [] => none
+
+def showPose (p : Pose Rat) : String := showRats p.toList
+
+/-- ops:
+  `align mode R(9) t(3) s <poses>`            → transformed poses
+  `origin <ref poses> <est poses>`            → `T | poses` or `E_TRAJ`
+  `firstn n N`                                → how many leading poses `align(..., n)` uses of `N`
+  `ape a c o R(9) t(3) s <ref poses> <est poses>` → `poses | M` / `poses | none` / `E_TRAJ`
+  `apeold …`                                  → the same for the code before fix aaba970
+  `umecert …`                                 → as in C03 -/
+def handle (op : String) (args : List String) : Option String :=
+  match op, args with
+  | "align", mode :: rest => do
+      let m ← parseMode mode
+      let (R, t, s, rest) ← readRts rest
+      let (ps, _) ← readPoseList rest
+      some (showPoses (alignApply m R t s ps))
+  | "origin", rest => do
+      let (ref, rest) ← readPoseList rest
+      let (est, _) ← readPoseList rest
+      match alignOrigin ref est with
+      | none => some "E_TRAJ"
+      | some (T, ps) => some (showPose T ++ " | " ++ showPoses ps)
+  | "firstn", [n, N] => do
+      let n ← n.toInt?
+      let N ← N.toNat?
+      some (toString (firstN n (List.range N)).length)
+  | "ape", a :: c :: o :: rest => do
+      let (R, t, s, rest) ← readRts rest
+      let (ref, rest) ← readPoseList rest
+      let (est, _) ← readPoseList rest
+      match apeAlign ⟨a == "1", c == "1", o == "1"⟩ R t s ref est with
+      | none => some "E_TRAJ"
+      | some (ps, m) => some (showPoses ps ++ " | " ++ (match m with | none => "none" | some m => showPose m))
+  | "apeold", a :: c :: o :: rest => do
+      let (R, t, s, rest) ← readRts rest
+      let (ref, rest) ← readPoseList rest
+      let (est, _) ← readPoseList rest
+      match apeAlignOld ⟨a == "1", c == "1", o == "1"⟩ R t s ref est with
+      | none => some "E_TRAJ"
+      | some (ps, m) => some (showPoses ps ++ " | " ++ (match m with | none => "none" | some m => showPose m))
+  | "umecert", _ => Evo.Drv.C03.handle op args
+  | _, _ => none
+
 end Evo.Drv.C04
